@@ -172,6 +172,14 @@ func (o *object) call(this Value, argumentList []Value, eval bool, frm frame) Va
 
 		// Enter a scope, name from the native object...
 		rt := o.runtime
+		if rt.scope == nil {
+			// Called from Go outside of any Run or Call (Value.String,
+			// Object.Call, ...): natives calling natives (toString -> join ->
+			// toString on a cyclic array) count against the depth limit only
+			// inside an execution context.
+			rt.enterGlobalScope()
+			defer rt.leaveScope()
+		}
 		if rt.scope != nil && !eval {
 			rt.enterFunctionScope(rt.scope.lexical, this)
 			rt.scope.frame = frame{
